@@ -200,6 +200,22 @@ func (ex *Explorer) site(id string) *siteStat {
 func (ex *Explorer) Run() {
 	ex.t0 = time.Now()
 	ex.work = [][]decision{nil}
+	if os.Getenv("SYMGO_PROGRESS") != "" {
+		stop := make(chan struct{})
+		defer close(stop)
+		go func() {
+			for {
+				select {
+				case <-stop:
+					return
+				case <-time.After(10 * time.Second):
+					ex.mu.Lock()
+					fmt.Fprintf(os.Stderr, "[progress %s] paths=%d done=%d queue=%d steps=%d %.0fs\n", ex.cfg.Harness, ex.paths, ex.pathsDone, len(ex.work), ex.steps, time.Since(ex.t0).Seconds())
+					ex.mu.Unlock()
+				}
+			}
+		}()
+	}
 	var wg sync.WaitGroup
 	for i := 0; i < ex.cfg.Workers; i++ {
 		wg.Add(1)
